@@ -61,6 +61,7 @@ type opSpec struct {
 	Anc    string `json:"anc,omitempty"`    // Scan: nil prev src srcmid junk big
 	Cancel bool   `json:"cancel,omitempty"` // Scan, Trans: the remote call gets a cancelled context
 	Empty  bool   `json:"empty,omitempty"`  // Stage, Supply: an empty request
+	Bad    bool   `json:"bad,omitempty"`    // Stage, Supply: some files of the batch cannot be opened when they are transmitted
 }
 
 type caseSpec struct {
@@ -135,37 +136,39 @@ func sha1hex(b []byte) string {
 // the world
 
 type world struct {
-	cs        *caseSpec
-	cid       string
-	dir       string
-	data      string
-	rootL     string
-	rootR     string
-	rootS     string
-	sidL      string
-	sidR      string
-	sidS      string
-	name      string // alpha | beta
-	epL       synchronization.Endpoint
-	epR       synchronization.Endpoint
-	epS       synchronization.Endpoint
-	serveDone chan error
-	tap       *wireTap
-	rng       *rand.Rand
-	clock     int64
-	replacers [][2]string
-	records   []map[string]any
-	hung      bool
-	ended     bool
-	rootThere bool           // the driver's own knowledge of whether it left the mirrored roots in place
-	lastL     *core.Snapshot // last snapshot the local endpoint returned
-	srcSnap   *core.Snapshot // last snapshot of S
-	nontriv   int
-	executed  int // operations issued to both endpoints
-	nextID    int
-	used      []int
-	unsynced  bool // the server may still be consuming staging transmissions
-	ambiguous map[string]bool
+	cs         *caseSpec
+	cid        string
+	dir        string
+	data       string
+	rootL      string
+	rootR      string
+	rootS      string
+	sidL       string
+	sidR       string
+	sidS       string
+	name       string // alpha | beta
+	epL        synchronization.Endpoint
+	epR        synchronization.Endpoint
+	epS        synchronization.Endpoint
+	serveDone  chan error
+	tap        *wireTap
+	rng        *rand.Rand
+	clock      int64
+	replacers  [][2]string
+	records    []map[string]any
+	hung       bool
+	ended      bool
+	rootThere  bool           // the driver's own knowledge of whether it left the mirrored roots in place
+	lastL      *core.Snapshot // last snapshot the local endpoint returned
+	srcSnap    *core.Snapshot // last snapshot of S
+	nontriv    int
+	executed   int // operations issued to both endpoints
+	nextID     int
+	used       []int
+	unsynced   bool // the server may still be consuming staging transmissions
+	ambiguous  map[string]bool
+	vanishNext bool // the model's "vanish" edit: the next batch loses files before it is transmitted
+	followup   bool // a scan of both endpoints follows: the connection must still be alive
 }
 
 var caseCounter int64
@@ -553,6 +556,67 @@ func (w *world) observeDuplicates() {
 	}
 }
 
+// breakFiles makes a random non-empty subset of the given files unopenable or
+// empty under every given root (the same way under each): deleted, replaced by a
+// directory, or truncated to nothing. Whatever position such a file has in its
+// batch, the batch goes on with the files after it.
+func (w *world) breakFiles(paths []string, roots []string) []any {
+	out := []any{}
+	if len(paths) == 0 {
+		return out
+	}
+	seen := map[string]bool{}
+	var uniq []string
+	for _, p := range paths {
+		if !seen[p] {
+			seen[p] = true
+			uniq = append(uniq, p)
+		}
+	}
+	// first, middle or last of the batch - and sometimes several
+	pick := map[int]bool{}
+	switch w.rng.Intn(4) {
+	case 0:
+		pick[0] = true
+	case 1:
+		pick[len(uniq)/2] = true
+	case 2:
+		pick[len(uniq)-1] = true
+	default:
+		for i := range uniq {
+			if w.rng.Intn(2) == 0 {
+				pick[i] = true
+			}
+		}
+		pick[w.rng.Intn(len(uniq))] = true
+	}
+	w.clock++
+	t := time.Unix(1500000000+w.clock*7, 0)
+	for i, p := range uniq {
+		if !pick[i] {
+			continue
+		}
+		how := []string{"delete", "directory", "truncate"}[w.rng.Intn(3)]
+		for _, root := range roots {
+			full := filepath.Join(root, filepath.FromSlash(p))
+			switch how {
+			case "delete":
+				os.RemoveAll(full)
+			case "directory":
+				os.RemoveAll(full)
+				os.MkdirAll(full, 0o755)
+			case "truncate":
+				if fi, err := os.Lstat(full); err == nil && fi.Mode().IsRegular() {
+					os.Truncate(full, 0)
+					os.Chtimes(full, t, t)
+				}
+			}
+		}
+		out = append(out, how+" "+p)
+	}
+	return out
+}
+
 // settle makes sure the server has consumed everything the client sent (the
 // transmissions of a staging operation are not acknowledged): a round trip - a
 // poll with a cancelled context - is answered only after them. External edits
@@ -608,7 +672,7 @@ func (w *world) restoreFromSource() {
 func (w *world) doEdit(op opSpec, rec map[string]any) {
 	r := w.rng
 	rec["kind"] = op.Kind
-	if op.Kind != "src" {
+	if op.Kind != "src" && op.Kind != "vanish" {
 		w.settle(rec)
 		if w.hung || w.ended {
 			return
@@ -623,6 +687,8 @@ func (w *world) doEdit(op opSpec, rec map[string]any) {
 			i := r.Intn(w.cs.Bulk)
 			w.mirrored(edit{K: "w", P: fmt.Sprintf("bulk/g%d/f%03d", i%3, i), C: w.fresh()})
 		}
+	case "vanish":
+		w.vanishNext = true
 	case "src":
 		for i := 1 + r.Intn(4); i > 0; i-- {
 			w.source(w.randEdit(true))
@@ -1026,50 +1092,72 @@ func (w *world) doStage(op opSpec, rec map[string]any) {
 	rec["req"] = req
 	observe := w.rng.Intn(2) == 0
 	rec["observed"] = false
-	one := func(ep synchronization.Endpoint, sid string, isRemote bool) (map[string]any, error) {
+	type staged struct {
+		res  map[string]any
+		ret  []string
+		sigs []*rsync.Signature
+		recv rsync.Receiver
+		err  error
+	}
+	stage := func(ep synchronization.Endpoint) *staged {
 		pc := append([]string{}, ps...)
 		dc := make([][]byte, len(ds))
 		for i := range ds {
 			dc[i] = append([]byte{}, ds[i]...)
 		}
-		var ret []string
-		var sigs []*rsync.Signature
-		var recv rsync.Receiver
-		var err error
-		ok := w.guard(func() { ret, sigs, recv, err = ep.Stage(pc, dc) })
-		ret = append([]string{}, ret...)
-		st := []any{}
-		for _, s := range sigs {
-			st = append(st, sigText(s))
+		st := &staged{}
+		ok := w.guard(func() { st.ret, st.sigs, st.recv, st.err = ep.Stage(pc, dc) })
+		st.ret = append([]string{}, st.ret...)
+		sg := []any{}
+		for _, s := range st.sigs {
+			sg = append(sg, sigText(s))
 		}
-		res := map[string]any{"hang": !ok, "err": w.errText(err), "paths": encPaths(ret), "sigs": st,
-			"recv": recv != nil, "feed": "", "fed": false}
-		if ok && err == nil && recv != nil {
-			// transmit from the source, as the controller does
-			var ferr error
-			okf := w.guard(func() { ferr = w.epS.Supply(ret, sigs, recv) })
-			res["fed"] = true
-			res["feed"] = w.errText(ferr)
-			if isRemote {
-				w.unsynced = true
-			}
-			if !okf {
-				res["hang"] = true
-			}
-			if ferr != nil {
-				w.ended = true
-			}
-		}
-		return res, err
+		st.res = map[string]any{"hang": !ok, "err": w.errText(st.err), "paths": encPaths(st.ret), "sigs": sg,
+			"recv": st.recv != nil, "feed": "", "fed": false}
+		return st
 	}
-	l, errL := one(w.epL, w.sidL, false)
+	feed := func(st *staged, isRemote bool) {
+		if st.res["hang"] == true || st.err != nil || st.recv == nil {
+			return
+		}
+		// transmit from the source, as the controller does
+		var ferr error
+		okf := w.guard(func() { ferr = w.epS.Supply(st.ret, st.sigs, st.recv) })
+		st.res["fed"] = true
+		st.res["feed"] = w.errText(ferr)
+		if isRemote {
+			w.unsynced = true
+		}
+		if !okf {
+			st.res["hang"] = true
+		}
+		if ferr != nil {
+			w.ended = true
+		}
+	}
+	sl := stage(w.epL)
+	l := sl.res
 	rec["l"] = l
 	if w.hung {
 		rec["r"] = map[string]any{"hang": true, "err": "not attempted", "paths": []any{}, "sigs": []any{}, "recv": false, "feed": "", "fed": false}
 		return
 	}
-	r, errR := one(w.epR, w.sidR, true)
+	sr := stage(w.epR)
+	r := sr.res
 	rec["r"] = r
+	errL, errR := sl.err, sr.err
+	// Both endpoints have said what they need. Now - between the scan and the
+	// transmission - some of those files stop being openable on the source.
+	rec["broken"] = []any{}
+	if (op.Bad || w.vanishNext) && !w.hung && errL == nil && errR == nil {
+		w.vanishNext = false
+		rec["broken"] = w.breakFiles(sl.ret, []string{w.rootS})
+		w.followup = true
+	}
+	feed(sl, false)
+	if !w.hung {
+		feed(sr, true)
+	}
 	if errL != nil || errR != nil {
 		w.ended = true
 		return
@@ -1120,12 +1208,14 @@ func (w *world) doSupply(op opSpec, rec map[string]any) {
 	}
 	sort.Strings(files)
 	w.rng.Shuffle(len(files), func(i, j int) { files[i], files[j] = files[j], files[i] })
-	if len(files) > 4 {
-		files = files[:1+w.rng.Intn(4)]
+	if len(files) > 5 {
+		files = files[:2+w.rng.Intn(4)]
 	}
 	sort.Strings(files)
 	if w.rng.Intn(3) == 0 || (len(files) == 0 && !op.Empty) {
-		files = append(files, "zz-absent")
+		// a file the roots do not have, anywhere in the batch
+		at := w.rng.Intn(len(files) + 1)
+		files = append(files[:at], append([]string{"zz-absent"}, files[at:]...)...)
 	}
 	if op.Empty {
 		files = nil
@@ -1145,6 +1235,20 @@ func (w *world) doSupply(op opSpec, rec map[string]any) {
 		st = append(st, sigText(s))
 	}
 	rec["sigs"] = st
+	// Between the scan and the supply some of the files stop being openable (on
+	// both mirrored roots alike).
+	rec["broken"] = []any{}
+	if (op.Bad || w.vanishNext) && len(files) > 0 {
+		w.vanishNext = false
+		w.settle(rec)
+		if w.hung || w.ended {
+			rec["l"] = map[string]any{"hang": false, "err": "not attempted", "tx": []any{}}
+			rec["r"] = map[string]any{"hang": w.hung, "err": "not attempted", "tx": []any{}}
+			return
+		}
+		rec["broken"] = w.breakFiles(files, []string{w.rootL, w.rootR})
+		w.followup = true
+	}
 	one := func(ep synchronization.Endpoint) (map[string]any, error) {
 		rc := &recorder{w: w, txs: []any{}}
 		recv := rsync.NewEncodingReceiver(rc)
@@ -1287,6 +1391,9 @@ func specToMap(cs *caseSpec) map[string]any {
 		if o.Empty {
 			m["empty"] = true
 		}
+		if o.Bad {
+			m["bad"] = true
+		}
 		ops = append(ops, m)
 	}
 	return map[string]any{"algo": cs.Algo, "watch": cs.Watch, "alpha": cs.Alpha, "sync": cs.Sync, "max": cs.Max,
@@ -1332,6 +1439,15 @@ func runCase(scratch, data, cid string, cs *caseSpec) ([]map[string]any, int, er
 		if op.Op != "Edit" {
 			w.executed++
 		}
+		if w.followup && !w.hung && !w.ended {
+			// after a batch that lost files: a scan of both endpoints, over the
+			// same connection
+			fr := map[string]any{"ev": "Scan", "i": i, "followup": true}
+			w.doScan(opSpec{Op: "Scan", Full: true, Anc: "prev"}, fr)
+			w.unsynced = false
+			w.emit(fr)
+		}
+		w.followup = false
 		if w.hung || w.ended {
 			break
 		}
